@@ -6,6 +6,7 @@ import numpy as np
 import xarray as xr
 from hypothesis import strategies as st
 
+from vlib import gen as G
 from vlib import cases, layouts as L, models as M, oracle
 from vlib.tab import items_of, table_from_obj
 from vlib.util import Failed, call, relerr
@@ -29,8 +30,8 @@ CLASSES = list(M.SINGLE_ROT) + ["HilbertEOFRotator"] + list(M.CROSS_ROT) + ["Hil
 
 
 @st.composite
-def strategy(draw):
-    cls = draw(st.sampled_from(CLASSES))
+def strategy(draw, cls=None):
+    cls = cls or draw(st.sampled_from(CLASSES))  # (the runner stratifies: every shard runs its slice of CLASSES, one class at a time)
     d = draw(cases.model_case([cls], min_samples=8, powers=(1, 1, 2, 3, 4), max_sd=2, max_fd=2))
     d["names"] = ["sample", "feature"] if M.family(cls) == "cross" else d["names"]
     d["refit"] = draw(st.integers(0, 2)) == 0
